@@ -17,7 +17,7 @@ func valueUniverse() []interface{} {
 	big := int64(1) << 53
 	return []interface{}{
 		nil, true, false,
-		int64(-1), int64(0), int64(1), int64(2), big, -big,
+		int64(-1), int64(0), int64(1), int64(2), big, -big, int64(6000000000000000000), int64(-6000000000000000000),
 		float64(-1), float64(0), 0.5, float64(1), 1.5, float64(2), float64(big), -0.5, 1e-3, float64(big) * 4,
 		"", "a", "ab", "b", "a\"b\\", "A",
 		L{}, L{int64(1)}, L{int64(1), int64(2)}, L{float64(1)}, L{"a"}, L{L{}}, L{nil}, L{int64(2)},
@@ -82,7 +82,9 @@ func peUniverse() []fieldpath.PathElement {
 		peKey("name", float64(1)), peKey("name", "a", "x", float64(1)), peKey("id", int64(1)),
 		peValue(nil), peValue(true), peValue(int64(1)), peValue(float64(1)), peValue(1.5), peValue("a"), peValue("b"),
 		peValue(int64(2)), peValue(L{int64(1)}), peValue(M{"a": int64(1)}),
-		peIndex(-1), peIndex(0), peIndex(1), peIndex(2),
+		peIndex(-1), peIndex(0), peIndex(1), peIndex(2), peIndex(1 << 62), peIndex(-(1 << 62)),
+		peValue(int64(6000000000000000000)), peValue(int64(-6000000000000000000)),
+		peKey("id", int64(6000000000000000000)), peKey("id", int64(-6000000000000000000)),
 	}
 }
 
